@@ -18,8 +18,16 @@ def src(rel, raw=False):
 
 def normalise(t):
     t = re.sub(r";(\s*)\+\+([A-Za-z_]\w*)(\s*)\)", r";\1\2++\3)", t)
-    t = re.sub(r"(?m)^(\s*)\+\+([A-Za-z_]\w*);", r"\1\2++;", t)
+    t = re.sub(r"(?m)^(\s*)\+\+([A-Za-z_]\w*(?:\[[^\];]+\])?);", r"\1\2++;", t)
+    t = re.sub(r"(?m)^(\s*)--([A-Za-z_]\w*(?:\[[^\];]+\])?);", r"\1\2--;", t)      # same for a pre-decrement statement
     return t
+
+
+def drop_local_const(text, log):
+    """N6: `const` on a local scalar / descriptor declaration with an initialiser is dropped (it only restricts later writes)."""
+    out, n = re.subn(r"(?m)^(\s*)const ((?:auto|bool|int|long|double|Vertex|Edge|WeightType|DistanceType|std::size_t|size_t)\b[^;=(]*?\b\w+ =)", r"\1\2", text)
+    log.append(dict(pattern="const <scalar type> x =", replacement="<scalar type> x =", fired=n, expected="any", kind="const-drop", note="const qualifier of initialised locals dropped"))
+    return out
 
 
 def _no_comments(t):
